@@ -59,7 +59,7 @@ func TestC23Survey(t *testing.T) {
 		if len(subs) == 0 {
 			continue
 		}
-		bres, err := oracle.Batch(scripts, oracle.Opts{Dir: dir})
+		bres, err := oracle.Batch(scripts, oracle.Opts{Dir: dir, Timeout: batchTimeout})
 		if err != nil {
 			t.Fatal(err)
 		}
